@@ -48,7 +48,13 @@ pub const BYTES_CAP: usize = 16;
 /// number of distinct addresses the model knows (ids 0..NADDR)
 pub const NADDR: usize = 5;
 /// event log
+#[cfg(feature = "ne8")]
+pub const NE: usize = 8;
+#[cfg(not(feature = "ne8"))]
 pub const NE: usize = 4;
+#[cfg(feature = "ew32")]
+pub const EW: usize = 32;
+#[cfg(not(feature = "ew32"))]
 pub const EW: usize = 10;
 /// foreign-call log
 pub const NC: usize = 8;
@@ -58,7 +64,13 @@ pub const NAUTH: usize = 6;
 /// payload words of a Val
 pub const VALW: usize = 4;
 /// hash oracle table
+#[cfg(feature = "nh12")]
+pub const NH: usize = 12;
+#[cfg(not(feature = "nh12"))]
 pub const NH: usize = 6;
+#[cfg(feature = "hw32")]
+pub const HW: usize = 32;
+#[cfg(not(feature = "hw32"))]
 pub const HW: usize = 10;
 
 // ---------------------------------------------------------------- tags
